@@ -1750,7 +1750,7 @@ class Engine:
         return GenVal("map", src=src, target=g.target, elt=e.elt, frame=fr.child(), engine=self)
 
     def e_ListComp(self, e, fr):
-        if len(e.generators) != 1 or e.generators[0].ifs:
+        if len(e.generators) != 1:
             raise Unsupported("list comprehension shape")
         g = e.generators[0]
         src = self.eval(g.iter, fr)
@@ -1759,7 +1759,14 @@ class Engine:
         f2 = fr.child()
         for it in items:
             self.assign(g.target, it, f2)
-            out.append(self.eval(e.elt, f2))
+            keep = True
+            for cond in g.ifs:          # filters over a concrete iterable: each condition is decided (forks if symbolic)
+                c = self.truth(self.eval(cond, f2))
+                if not (c if isinstance(c, bool) else self.decide(c)):
+                    keep = False
+                    break
+            if keep:
+                out.append(self.eval(e.elt, f2))
         return seq_lit("list", out, new_aid())
 
     def e_DictComp(self, e, fr):
@@ -2212,8 +2219,23 @@ class Engine:
         raise Unsupported("float() of %r" % (v,))
 
     def b_round(self, args, kwargs, node, fr):
+        if len(args) == 2 or "ndigits" in kwargs:
+            v = self.force(args[0])
+            nd = args[1] if len(args) == 2 else kwargs["ndigits"]
+            if nd is None:
+                return self.b_round([v], {}, node, fr)
+            if is_int(v):
+                if isinstance(nd, int) and nd >= 0:
+                    return v
+                raise Unsupported("round(int, negative ndigits)")
+            if isinstance(v, Fl) and is_int(nd):
+                # the decimal rounding of a double to ndigits places: SOME double near v -- an uninterpreted function of
+                # (v, ndigits) of which nothing else is known (in particular it need not equal v)
+                f = z3.Function("py.round_ndigits", z3.RealSort(), z3.IntSort(), z3.RealSort())
+                return Fl(f(v.t, I(nd)))
+            raise Unsupported("round(%r, %r)" % (v, nd))
         if len(args) != 1:
-            raise Unsupported("round with ndigits")
+            raise Unsupported("round arguments")
         (v,) = args
         if is_int(v):
             return v
